@@ -130,6 +130,8 @@ impl Names {
         match v {
             // the time of a connection ($SYS/clients/<id>/connectedSince, extended monitoring) is environment
             Value::String(s) if s.len() >= 20 && s.as_bytes()[4] == b'-' && s.as_bytes()[10] == b'T' && s[..4].chars().all(|c| c.is_ascii_digit()) => "ts".to_owned(),
+            // the peer address of a TCP session ($SYS/clients/<id>/address) is environment
+            Value::String(s) if s.starts_with("127.0.0.1:") && s[10..].chars().all(|c| c.is_ascii_digit()) => "addr".to_owned(),
             Value::String(s) => self.seg_out(s),
             Value::Number(n) => format!("j:{n}"),
             Value::Array(items) if !items.is_empty() => {
